@@ -36,6 +36,7 @@ def oracle(ctx, ops, impl, max_index, min_left_min):
     revoked = {}       # (node, list) -> set(idx) successfully revoked
     served = {}        # (node, list) -> last served bit set
     seen_revoked = set()  # (node, list, idx) a verify on that node answered revoked
+    hosted_valid = {}     # foreign url -> union of the bits of every valid revocation list ever hosted there in this scenario
     stats = Counter()
     bad = []
 
@@ -53,7 +54,11 @@ def oracle(ctx, ops, impl, max_index, min_left_min):
         if line.startswith("panic:") or " panic:" in line:
             report("C11:panic", f"operation {kind} panicked: {line[:200]}", i)
         if kind == "reset":
-            issued, revoked, served, seen_revoked = {}, {}, {}, set()
+            issued, revoked, served, seen_revoked, hosted_valid = {}, {}, {}, set(), {}
+        elif kind == "host":
+            h = op["host"]
+            if h["kind"] in ("ok", "noexp"):
+                hosted_valid.setdefault(h["url"], set()).update(h.get("bits") or [])
         elif kind in ("entry", "race", "par"):
             for m in ENTRY_RE.finditer(line):
                 stats["entries"] += 1
@@ -74,6 +79,8 @@ def oracle(ctx, ops, impl, max_index, min_left_min):
             name = f"n{lst['node']}/{lst.get('issuer','')}/{lst.get('page',0)}"
             if line == "revoke ok":
                 stats["revocations"] += 1
+                if int(op["idx"]) in revoked.get((node, name), set()):
+                    report("C11:revoke-accepted-twice", f"{name}#{op['idx']}", i)
                 revoked.setdefault((node, name), set()).add(int(op["idx"]))
             elif line == "revoke revoked":
                 stats["re-revocations"] += 1
@@ -118,7 +125,11 @@ def oracle(ctx, ops, impl, max_index, min_left_min):
                     # honoured only from the list the credential names: the bit must really be revoked on the hosting node
                     if lst["node"] >= 0 and int(s["idx"]) not in revoked.get((lst["node"], name), set()):
                         report("C11:revoked-without-revocation-on-named-list", f"{key}", i)
-                    seen_revoked.add(key)
+                    if lst["node"] < 0 and int(s["idx"]) not in hosted_valid.get(lst.get("raw", ""), set()):
+                        report("C11:revoked-from-a-list-that-is-not-a-valid-list-of-the-named-url",
+                               f"{key}: no validly signed revocation list naming this URL with that bit was ever hosted there", i)
+                    if lst["node"] >= 0:   # permanence is claimed for lists served by a node (a foreign host may serve anything)
+                        seen_revoked.add(key)
                 else:
                     if key in seen_revoked:
                         report("C11:revocation-not-permanent", f"{key} was revoked for this node before, now {v}", i)
@@ -188,7 +199,11 @@ def voracle(ops, impl):
                 report("C11:isrevoked-disagrees-with-accepted-revocations", f"{op['id']} {line}", i)
         elif kind == "vverify":
             stats["verify"] += 1
-            cid, iss = op["id"], op["issuer"]
+            cid, iss = op.get("id", ""), op["issuer"]
+            if not cid:
+                if line != "vverify err:validation":
+                    report("C11:credential-without-id-not-refused", f"{line}", i)
+                continue
             seen_creds.add((cid, iss))
             if op.get("kind") == "nutsorg" and pre(cid) != iss:
                 if line != "vverify err:validation":
